@@ -196,9 +196,11 @@ class Case:
                 loss.backward()
             elif act == "z":
                 opt.zero_grad()
-                for r in refs:
+                # both PyTorch conventions are accepted: a buffer of zeros (a later step sees a zero gradient) or no
+                # buffer at all (a later step skips the parameter); the reference mirrors what the optimizer left
+                for r, p in zip(refs, params):
                     if r.requires_grad:
-                        r.grad = [0 * x for x in r.p]
+                        r.grad = None if p._grad is None else [0 * x for x in r.p]
             else:
                 opt.step()
                 for r in refs:
@@ -259,6 +261,9 @@ class StepCase(Case):
                             weight_decay=h["weight_decay"], nesterov=h["nesterov"], maximize=h["maximize"])
             if sp["state"] == "buffer":
                 b = env.arr("buf", shp)
+                if not (isinstance(getattr(opt, "momentum_buffer", None), list) and len(opt.momentum_buffer) == 1):
+                    from ..symnum.scalar import Unsupported
+                    raise Unsupported("SGD keeps its momentum state in a layout this harness does not know")
                 opt.momentum_buffer[0] = snapshot(b)
                 opt.t = 3
                 R.state["buf"] = [b[i] for i in range(2)]
@@ -268,6 +273,9 @@ class StepCase(Case):
                       maximize=h["maximize"])
             k = int(sp["state"])
             if k > 0:
+                if not all(isinstance(getattr(opt, a_, None), list) and len(getattr(opt, a_)) == 1 for a_ in ("m1", "m2", "steps")):
+                    from ..symnum.scalar import Unsupported
+                    raise Unsupported("Adam keeps its moment estimates in a layout this harness does not know")
                 m = env.arr("m", shp)
                 v = env.arr("v", shp, lo=0, hi=3)
                 opt.m1[0] = snapshot(m)
@@ -284,13 +292,12 @@ class StepCase(Case):
                  np.array(R.p, dtype=object if env.sym else np.float64))
         out.fact("updated in place", p.data is a)
         out.pair("the gradient buffer is left alone by step()", snapshot(p._grad), g)
-        if sp["opt"] == "SGD" and h["momentum"] != 0:
-            out.pair("momentum buffer after the step", snapshot(opt.momentum_buffer[0]),
-                     np.array(R.state["buf"], dtype=object if env.sym else np.float64))
-            out.fact("momentum buffer shares no memory with the gradient", not np.shares_memory(ar.unwrap(opt.momentum_buffer[0]), ar.unwrap(p._grad)))
-        if sp["opt"] != "SGD":
-            out.pair("first moment after the step", snapshot(opt.m1[0]), np.array(R.state["m"], dtype=object if env.sym else np.float64))
-            out.pair("second moment after the step", snapshot(opt.m2[0]), np.array(R.state["v"], dtype=object if env.sym else np.float64))
+        # how the optimizer represents its state internally is its own business: only aliasing is checked here, the values
+        # are observable through the parameter trajectories of the history cases
+        for nm in ("momentum_buffer", "m1", "m2"):
+            for b in getattr(opt, nm, []) or []:
+                if isinstance(b, np.ndarray):
+                    out.fact("%s shares no memory with the gradient" % nm, not np.shares_memory(ar.unwrap(b), ar.unwrap(p._grad)))
         return out
 
 
@@ -313,7 +320,7 @@ def main(tier, seed):
                 "flag sets": {"SGD": len(SGD_FLAGS), "Adam": len(ADAM_FLAGS), "AdamW": len(ADAM_FLAGS)}},
         assumptions=["floats are reals", "hyper-parameters range over lr>0, momentum/dampening/weight_decay/betas in (0,1), "
                      "eps>0 (symbolic) or are exactly 0 (enumerated)",
-                     "zero_grad is read as 'fill with zeros' (PyTorch's set_to_none=False): a later step sees a zero gradient",
+                     "zero_grad may either fill with zeros (a later step sees a zero gradient) or drop the buffers (a later step skips the parameter), as PyTorch's set_to_none allows; the reference follows whichever the optimizer does",
                      "reference = the algorithm boxes of the PyTorch documentation of SGD/Adam/AdamW written on scalars; "
                      "per-parameter step counts and momentum buffers as in PyTorch"],
         stubs=["numpy creators inside synapgrad return constant symbolic arrays"],
